@@ -23,7 +23,13 @@ Reject(e, item) ==
   /\ bad' = bad + 1 /\ UNCHANGED <<cfg, stats>>
 
 Step(e) ==
-  IF e.op # "hdr" THEN UNCHANGED <<cfg, bad, stats>>
+  IF e.op = "dag"          \* the counterexample of GroupWalk ("inprogress": 2^depth loads for depth groups) on a real file
+  THEN IF e.res \in {"ok", "err"}
+       THEN /\ stats' = [stats EXCEPT !.answered = @ + 1] /\ UNCHANGED <<cfg, bad>>
+       ELSE /\ PrintT(<<"BAD", ToJson([case |-> e.case, at |-> l, cfg |-> [family |-> "group-dag", sb |-> e.sb, depth |-> e.depth],
+                                       items |-> <<[diag |-> IF e.res = "panic" THEN "panic" ELSE "hang", family |-> "group-dag", msg |-> e.msg]>>])>>)
+            /\ bad' = bad + 1 /\ UNCHANGED <<cfg, stats>>
+  ELSE IF e.op # "hdr" THEN UNCHANGED <<cfg, bad, stats>>
   ELSE LET h == cfg.blocks
            wf == WellFormed(h)
        IN
